@@ -197,7 +197,13 @@ public final class Driver {
                 continue;
             }
             if (result[1] == null) {
-                emit("TEST", cls, m.getName(), "pass", b64(""));
+                Class<? extends Throwable> expected = m.getAnnotation(org.junit.Test.class).expected();
+                if (expected != org.junit.Test.None.class) {
+                    emit("TEST", cls, m.getName(), "fail",
+                        b64("java.lang.AssertionError: Expected exception: " + expected.getName()));
+                } else {
+                    emit("TEST", cls, m.getName(), "pass", b64(""));
+                }
             } else {
                 Throwable t = (Throwable) result[1];
                 Class<? extends Throwable> expected = m.getAnnotation(org.junit.Test.class).expected();
@@ -223,7 +229,8 @@ public final class Driver {
         int shown = 0;
         for (StackTraceElement e : st) {
             String cn = e.getClassName();
-            if (cn.startsWith("java.") || cn.startsWith("jdk.") || cn.startsWith("sun.") || cn.startsWith("fprt.")) {
+            if (cn.startsWith("java.") || cn.startsWith("jdk.") || cn.startsWith("sun.") || cn.startsWith("fprt.")
+                || cn.startsWith("org.junit.")) {
                 continue;
             }
             sb.append("\n  at ").append(e);
